@@ -48,18 +48,19 @@ def check_model(text, exp, renderer, acc, case):
     acc.n += 1
     acc.validated += 1
     dialect = renderer.L.dialect
-    a = I.parse(text, default=dialect, acc=acc)
-    if a[0] != 'ok':
-        acc.violation('well-formed-rejected', case, 'well-formed document rejected: %s' % (a[1],))
-        return
     acc.nontrivial += 1
     acc.outcomes['elements:%d' % min(len(renderer.lines), 12)] += 1
-    got = project(a[1])
     want = project(exp)
-    if got != want:
-        p, x, y = first_diff(got, want)
-        sig = 'ast-' + (p.rsplit('/', 1)[-1] if not p.rsplit('/', 1)[-1].isdigit() else p.rsplit('/', 2)[-2])
-        acc.violation(sig, case, 'AST differs from the document model at %s' % p, observed=x, expected=y)
+    for route, a in I.parse_routes(text, dialect, acc):
+        if a[0] != 'ok':
+            acc.violation('well-formed-rejected', case, '%s: well-formed document rejected: %s' % (route, a[1]))
+            return
+        got = project(a[1])
+        if got != want:
+            p, x, y = first_diff(got, want)
+            sig = 'ast-' + (p.rsplit('/', 1)[-1] if not p.rsplit('/', 1)[-1].isdigit() else p.rsplit('/', 2)[-2])
+            acc.violation(sig, case, '%s: AST differs from the document model at %s' % (route, p), observed=x, expected=y)
+            return
 
 
 def run(ctx):
